@@ -67,17 +67,19 @@ type Inst struct {
 	ents   []*ent
 	refs   []refBy
 
-	phase     int
-	pc        int
-	reg       []*ent
-	dpc       int // index into reg of the defer currently running (counts down)
-	failed    bool
-	cause     string // own | dep | callee | guard:<kind> | abort
-	causeBy   *Inst
-	failCode  int
-	sawEntry   bool // evidence that the command loop of this instance has started
-	hadIgnored bool // an ignored failing command occurred
-	codeUnsure bool // the failing command began after a cancellation may already have been in flight
+	phase        int
+	pc           int
+	reg          []*ent
+	dpc          int // index into reg of the defer currently running (counts down)
+	failed       bool
+	cause        string // own | dep | callee | guard:<kind> | abort
+	causeBy      *Inst
+	failCode     int
+	sawEntry     bool // evidence that the command loop of this instance has started
+	hadIgnored   bool // an ignored failing command occurred
+	lateReported bool
+	claimedDead  string // a caller went on (ran its defers / let its own caller go on) as if this shared instance had finished
+	codeUnsure   bool   // the failing command began after a cancellation may already have been in flight
 }
 
 func (i *Inst) name() string { return i.T.Name + "@" + i.P }
@@ -651,6 +653,10 @@ func sharedTag(i *Inst) string {
 // Check decides whether ev may be pending/released now. It does not change
 // the state. A nil result means the event is allowed.
 func (m *Model) Check(ev Event) *V {
+	if i, _ := m.find(ev); i != nil && i.claimedDead != "" && !m.seen[ev.ID()] {
+		i.lateReported = true
+		return m.lateShared(ev, i)
+	}
 	id := ev.ID()
 	out := m.allFront()
 	s, ok := out[id]
@@ -661,6 +667,11 @@ func (m *Model) Check(ev Event) *V {
 		return m.payload(ev, s)
 	}
 	return m.diagnose(ev)
+}
+
+func (m *Model) lateShared(ev Event, i *Inst) *V {
+	return &V{Rule: "PRE.callee", Tags: "caller-went-on-before-shared-" + i.T.Run.String() + "-finished", Props: []string{"C02", "C06", "C14", "C01"},
+		What: fmt.Sprintf("%s: the deduplicated task %s is still executing although %s, i.e. a referrer returned before the single execution had finished", ev.ID(), i.name(), i.claimedDead)}
 }
 
 func (m *Model) payload(ev Event, s slot) *V {
@@ -844,6 +855,12 @@ func uniq(s []string) string {
 }
 
 func (m *Model) kill(i *Inst, vis map[*Inst]bool) {
+	if i.Shared && i.phase != phDone && i.phase != phIdle && i.claimedDead == "" {
+		// A caller of this deduplicated instance has gone on. Either the instance was cancelled and ended
+		// silently (then it never emits another event), or the caller returned before the shared execution
+		// finished — which any later event of the instance proves.
+		i.claimedDead = "a caller's deferred commands (or its caller's) ran"
+	}
 	if vis[i] || i.phase == phDone || i.phase == phIdle || i.Shared {
 		return
 	}
@@ -868,6 +885,10 @@ func (m *Model) kill(i *Inst, vis map[*Inst]bool) {
 // Step applies a released event. The event must have been accepted by Check
 // (a rejected event is applied on a best-effort basis so monitoring can go on).
 func (m *Model) Step(ev Event) {
+	if i, _ := m.find(ev); i != nil && i.claimedDead != "" && !i.lateReported {
+		i.lateReported = true
+		m.Viols = append(m.Viols, *m.lateShared(ev, i))
+	}
 	id := ev.ID()
 	out := m.allFront()
 	s, ok := out[id]
